@@ -7,7 +7,16 @@ Alphabet == {"a", "n", " ", "\n", "'", "\"", "\\", "`"}
 VARIABLE t
 \* plus a few texts outside the alphabet: expressions that begin and end with a parenthesis
 Extra == { <<"(", "a", ")">>, <<"(", "a", ")", " ", "(", "n", ")">>, <<"(", "(", "a", ")", ")">>, <<"(", "a", ")", "n">>, <<"a", "(", ")">> }
-Init == t \in UNION {[1..n -> Alphabet] : n \in 0..MaxLen} \cup Extra
+\* layout family: texts as LINES, each an indentation of 0..3 blanks followed by nothing (a blank-only line), a word, or
+\* words with a trailing blank -- the shapes note normalisation (common indentation, blank-only lines) depends on and
+\* which short texts over the alphabet cannot reach (the smallest interesting one has 10 characters)
+CONSTANT NLines
+LineShapes == {<<k, c>> : k \in 0..3, c \in {<<>>, <<"a">>, <<"a", " ", "n", " ">>}}
+LineOf(s) == [i \in 1..s[1] |-> " "] \o s[2]
+RECURSIVE GlueLines(_)
+GlueLines(ls) == IF Len(ls) = 1 THEN LineOf(ls[1]) ELSE LineOf(ls[1]) \o <<"\n">> \o GlueLines(Tail(ls))
+LayoutTexts == {GlueLines(ls) : ls \in UNION {[1..n -> LineShapes] : n \in 2..NLines}}
+Init == t \in UNION {[1..n -> Alphabet] : n \in 0..MaxLen} \cup Extra \cup LayoutTexts
 Next == UNCHANGED t
 InvWriter == WriterLexerInverse(t)
 InvNorm == NormIdempotent(t)
